@@ -54,6 +54,18 @@ func planFor(id string) *Plan {
 
 var plans = []Plan{
 	{
+		ID: "C19", Level: "exploration",
+		Rule: "three engines: (1) rapid generates per-goroutine operation lists over the reference MemoryStore (create/get/delete/revoke-by-request-id/invalidate/JTI set+check on a 3-key, 2-request-id pool to force contention), runs them with real parallelism, records call/return timestamps and lets porcupine decide linearizability against a sequential specification partitioned by table; (2) every pair of the API operations authorize, redeem, refresh, revoke (refresh/access), introspect, device poll, PAR use on overlapping credentials is executed under ALL interleavings of their storage steps (the harness owns the schedule; exhaustive DFS for pairs up to a run cap, sampled triples) on both stores: no panic, no stuck schedule, every token handed out is active or was invalidated by a storage step of the other operation, no value minted twice; (3) 8 goroutines run mixed API operations on shared tokens for a fixed time under the race detector, with a fully populated and with a default-constructed Config, HMAC and JWT access tokens: race detector and concurrent-map check silent, no panic, no deadlock (watchdog). Non-trivial: a history with >=2 goroutines on the same table, a schedule whose storage steps alternate between operations, a stress run; distinct by op lists / storage-step order.",
+		Assumptions: []string{"a silent race detector is evidence, not proof; schedules finer than a storage call are only sampled by engine 3"},
+		Jobs: []Job{
+			{Test: "TestC19_StoreLinearizable", Shards: [2]int{4, 8}, Checks: [2]int{400, 8000}, Timeout: [2]int{600, 3000}},
+			{Test: "TestC19_Interleavings", Shards: [2]int{12, 16}, Timeout: [2]int{900, 3400}},
+			{Test: "TestC19_RaceStress", Shards: [2]int{4, 4}, Timeout: [2]int{600, 3000}, Race: true},
+			{Test: "TestC19_StoreLinearizable", Shards: [2]int{2, 4}, Checks: [2]int{300, 4000}, Timeout: [2]int{600, 3000}, Race: true},
+		},
+	},
+
+	{
 		ID: "C18", Level: "fault_enumeration", ExhaustiveWhenAll: false,
 		Rule: "for each of 13 flows (code redemption with PKCE and OpenID Connect, refresh, refresh-reuse handling, device poll, implicit, hybrid, authorization-code issuance, client credentials, password, JWT bearer, revocation, PAR push, PAR use) the storage-call list of the request is recorded from a fault-free run on the tree under test; then EVERY call index x EVERY failure kind (generic error, not-found, inactive, serialization conflict, crash = the call and everything after never happen, open transaction discarded) x {reference store, transactional store with real rollback} is executed, each followed by an attack step (e.g. redeem without the PKCE verifier, foreign client), a retry by the legitimate holder and a replay; pairs (a second fault in the retry) are sampled by rapid. Oracle: refused responses carry nothing, unexpected failures refuse the request, refresh serialization conflicts are not server_error, Begin/Commit/Rollback grammar, snapshot of all code/token tables equals the pre-request snapshot when the failure is inside the issuing transaction and the retry then succeeds, single-use credentials are exchanged at most once, the attack step stays refused. Non-trivial: the fault index lies inside the issuing transaction, or the fault is followed by a successful retry; distinct by (flow, store, index, kind).",
 		Jobs: []Job{
